@@ -9,7 +9,7 @@ from .. import graphcheck as GC, graphgen as GG, gs, refgraph as RG, refmodel as
 ID = "C12"
 RULE = (
     "Histories: a generated graph (every family, custom edges included, inside the convergence neighbourhood or far outside it so that runs "
-    "diverge) and a sequence of 1..4 optimize() calls, each with its own tol in {0} u 10^[-12,-1], max_iter in 1..30, verbose flag and "
+    "diverge, or with an unconstrained vertex so that the linear solve fails) and a sequence of 1..4 optimize() calls, each with its own tol in {0} u 10^[-12,-1], max_iter in 1..30, verbose flag and "
     "fix_first_pose. Model: a clone advanced by single steps optimize(tol=0,max_iter=1) gives the states x_0,x_1,...; the *reference* chi2 of each "
     "state gives chi_0,chi_1,...; the documented stopping rule is evaluated on them (comparisons within 1e-9 of their threshold are ambiguous: "
     "both outcomes accepted). Every call is also executed on a fresh graph rebuilt from the state before the call with the opposite verbose "
@@ -17,7 +17,7 @@ RULE = (
     "calls). Non-trivial = early stop at 1 < k < max_iter, stop exactly at max_iter with converged=True, a run whose chi2 increased at some "
     "iteration, or a history of >= 2 calls."
 )
-BUDGET = {"quick": 16 * 120, "thorough": 16 * 4000}
+BUDGET = {"quick": 16 * 300, "thorough": 16 * 4000}
 TOLERANCES = {
     "recorded chi2 vs reference chi2 of the corresponding state": "relative 1e-9 + 1e-12*|Omega|*(1+S)^2 (skipped when non-finite or > 1e100)",
     "stopping decisions": "ambiguous if |rel_diff - tol| <= 1e-9 or |chi_k - chi_{k-1}| <= 1e-9*chi or chi below 1e-18*(1+chi_0)",
@@ -30,13 +30,19 @@ EPS = float(np.finfo(float).eps)
 
 @S.composite
 def strategy_(g):
-    regime = g.choice(["near", "near", "wild"])
+    regime = g.choice(["near", "near", "near", "wild", "wild", "singular"])
     kw = dict(n_pose=(2, 7), n_lm=(0, 3), n_loops=(0, 3), conds=(1.0, 1e2))
-    if regime == "near":
+    if regime in ("near", "singular"):
         kw.update(noise=(0.05, 0.05), pert=(0.3, 0.3))
     else:
         kw.update(noise=(0.5, 0.5), pert=(3.0, 3.0))
     case = GG.gen(g, **kw)
+    if regime == "singular":
+        # an unconstrained free vertex: the normal equations are exactly singular and the solve fails (non-finite update)
+        k = g.choice([case["base"], R.POINT_OF[case["base"]]])
+        p = g.pose(k, s=1.0)
+        nid = max(v["id"] for v in case["verts"]) + 1
+        case["verts"].insert(g.rnd.randint(1, len(case["verts"])), {"id": nid, "p": p, "fixed": False, "truth": list(p["v"]), "role": "isolated"})
     ncalls = g.choice([1, 1, 2, 2, 3, 4])
     calls = []
     for _ in range(ncalls):
@@ -100,8 +106,10 @@ def reports_equal(ra, rb):
     return True
 
 
-def decide(chis, k, tol, chi0):
-    """Model stopping decision at index k (documented rule): True / False / None (ambiguous)."""
+def decide(chis, k, tol, chi0, floor=0.0):
+    """Model stopping decision at index k (documented rule): True / False / None (ambiguous).
+    The reference chi2 values agree with the code's only up to noise = 1e-9*chi2 + floor; a decision is ambiguous when
+    the comparison it rests on lies within 10x that noise."""
     a, b = chis[k - 1], chis[k]
     if tol <= 0.0:
         return False  # (chi_k <= chi_{k-1}) and (rel_diff < 0) cannot both hold
@@ -109,11 +117,11 @@ def decide(chis, k, tol, chi0):
         return None
     if a < 1e-18 * (1 + chi0) or b < 1e-18 * (1 + chi0):
         return None
+    noise = 1e-9 * max(abs(a), abs(b)) + floor
     rel = (a - b) / (a + EPS)
-    if abs(a - b) <= 1e-9 * max(abs(a), abs(b)):
-        # chi_k <= chi_{k-1} decided by rounding; the relative test rel < tol is then true iff tol > ~0
-        return None
-    if abs(rel - tol) <= 1e-9 * max(1.0, abs(tol)) + 1e-9 * abs(tol):
+    if abs(a - b) <= 10.0 * noise:
+        return None  # chi_k <= chi_{k-1} decided by rounding
+    if abs(rel - tol) <= 1e-9 * max(1.0, abs(tol)) + 10.0 * noise / abs(a):
         return None
     return (b <= a) and (rel < tol)
 
@@ -215,12 +223,12 @@ def check(case, ctx):
 
         # ---- stopping rule (non-deterministic validation: ambiguous decisions accept both outcomes)
         for k in range(1, K):
-            d = decide(chis, k, tol, chis[0])
+            d = decide(chis, k, tol, chis[0], 1e-12 * maxinfo * (1 + S0) ** 2)
             if d is True:
                 return ctx.fail("stopping-rule", "call %d: the documented rule stops at iteration %d (chi2 %r -> %r, tol=%g) but the run continued to %d" % (ci, k, chis[k - 1], chis[k], tol, K))
             if d is None:
                 ctx.event("ambiguous-decision")
-        dK = decide(chis, K, tol, chis[0])
+        dK = decide(chis, K, tol, chis[0], 1e-12 * maxinfo * (1 + S0) ** 2)
         if dK is None:
             ctx.event("ambiguous-decision")
         if K < max_iter:
